@@ -3,6 +3,10 @@ def _trivial(inp, out):
     f = inp.split()
     if f and f[0] == 'B':
         return f[1] == '0' and f[2] == '0'
+    if f and f[0] == 'F':
+        return f[1] == '0'
+    if f and f[0] == 'K':
+        return 'P:' not in out          # a client session without a single TEIGetMove
     return 'bestmove' not in out
 
 
@@ -19,11 +23,20 @@ PROP = dict(
          'three evaluators, table of 0/16/64/256 entries; (b) calcBudget on a dense grid of boundary values and random int64 triples '
          '(ms-valued GUI clocks, clocks around 1 ms, the whole non-negative int64 range, arbitrary int64). non-trivial = script with at '
          'least one bestmove / triple with a clock; distinct = distinct inputs. Scripts whose clock could cut the search (budget < 20 s) '
-         'and 10 timed clock probes (which clock, which increment, movetime cap, 1 ms left = expires at once: class clock-ignored) are judged by the Go oracle only.',
+         'and 10 timed clock probes (which clock, which increment, movetime cap, 1 ms left = expires at once: class clock-ignored) are judged by the Go oracle only. '
+         '(c) CLIENT sessions (K cases): tei.NewClient / Client.NewGame / Player.TEIGetMove / GetMove through their public API against an engine PROCESS - '
+         'scripted (the n-th go / position / teinewgame / tei line answered with given bytes: clean and annotated bestmoves in both spellings, info lines, '
+         'odd and Unicode spacing, CRLF, blank lines before the answer, bestmove lines with 0 / 2+ words or unparseable moves, stdout closed early with and '
+         'without a partial line, stdin closed = failing writes, output for lines the client does not wait on, no answer at all = the client blocks) or the '
+         'real Engine.Run (whole short games, a refused position); 1-3 games per client, boards repeated at later move numbers, deadlines (none / passed / '
+         'future) and TimeControls with 0 / sub-millisecond / exact-millisecond / huge / negative values, players of earlier games; L1 = what every call '
+         'returned (move / error class / panic class / hang) and every line the engine process received. formatTime on boundary and random int64 values (F cases).',
     assumptions=['searches are compared only when the clock cannot cut them (budget absent or >= 20 s); tiny-clock scripts are judged by the oracle only',
                  'the searcher is a parameter of the theorems; the correspondence runs the engine model with the search model of Search.v '
                  '(NoSort, no null move, no slide reduction, depth 1-2)',
-                 'tei.Client / Player.TEIGetMove (the client side, which spawns a process) is not exercised'],
+                 'client sessions: the time left until a FUTURE deadline is read off the go line the client wrote (whole ms, checked to lie within 20 s below the '
+                 'offset) and given to the model as its input; the two sessions in which the client blocks for ever are recognised by a 3 s watchdog',
+                 'an engine process that dies while the client is ahead of it (after it closed a pipe or left extra output) makes writes race: such scripts are not generated'],
 )
 
 MANIFEST = dict(
@@ -36,7 +49,16 @@ MANIFEST = dict(
          "below that clock and at most at movetime for all int64 clock values (tei_limit_within_clock, budget_bounds_fixed); Run never "
          "panics on any byte stream (tei_run_total). The model is run against the real Engine (in-package overlay driver) on ~1500 (quick) "
          "command scripts and ~83k budget triples per run; an independent Go oracle (own PTN/TPS readers, rules oracle, recording evaluator) "
-         "judges the implementation's outputs directly, including which clock a go obeys (timed probes).",
+         "judges the implementation's outputs directly, including which clock a go obeys (timed probes). "
+         "CLIENT side (tei/client.go, tei/time.go; model coq/TeiClient.v over an arbitrary engine process, and over Tei.v as that process): the engine that reads the "
+         "client's teinewgame + position lines holds exactly the position given, for every position of C10's exact round trip (client_position_line_exact); the "
+         "durations the engine parses from the client's go line are the client's deadline and clock values rounded down to whole ms, never below 0, and the client "
+         "refuses exactly the clock values that are neither 0 nor >= 1 ms (client_go_line, client_go_refused); NewGame ; TEIGetMove against the engine model with a "
+         "searcher_ok searcher returns the searcher's move, legal in the position, via FormatMove/ParseMove (client_server_move_legal); the client model panics only "
+         "as a dead player or on an engine line without a word (client_total), never against the engine model (client_tei_no_panic). Every client session of the "
+         "check (~160 quick: scripted and real engine processes) is run through the extracted client model: results and wire lines agree.",
     ref='5.17', technique='Coq proof (history invariant by induction over the command list; lia over wrapped int64) + extracted-model/implementation differential + Go protocol oracle',
-    note="Trusted: Coq kernel, extraction, hand transcription of tei/server.go (validated by execution only), generators, the Go oracle. "
+    note="Trusted: Coq kernel, extraction, hand transcription of tei/server.go and tei/client.go (validated by execution only), generators, the Go oracle, the scripted engine process of the harness. "
+         "Known behaviour of the client recorded, not judged: an engine line without a word makes sendCommand panic (index out of range); a deadline less than 1 ms ahead is sent as `movetime 0` = no limit; "
+         "a go the engine does not answer (finished game) blocks TEIGetMove for ever. "
          "spec_position replays moves with the position-level move model (tied to the rules by C01), not with Rules.v directly.")
